@@ -249,7 +249,7 @@ pub fn parse_json_output(raw: &str, r: &mut Resp) {
             continue;
         }
         any = true;
-        let v: Value = match serde_json::from_str(line) {
+        let v: Value = match crate::jsonx::parse(line) {
             Ok(v) => v,
             Err(_) => {
                 r.message = format!("unparseable output line: {}", line);
